@@ -122,9 +122,10 @@ def main():
     doc = {
         "version": 1,
         "setup_cmd": "./setup.sh",
-        "hooks": {"guard": "ECAGENT_VERIF_TRACE", "enable": "checks drive the public API of /repo's working tree directly (sys.path); "
-                  "the env-guarded tracer is only needed for validating the repository's own test-suite",
-                  "baseline_off_cmd": BASE_OFF, "source_commits": [], "add_only": True},
+        "hooks": {"guard": "ECAGENT_VERIF_TRACE", "enable": "checks drive the public API of /repo's working tree directly (sys.path, no build step); "
+                  "harness/suite.py additionally runs the repository's own tests with ECAGENT_VERIF_TRACE=<file> so that ECAgent/_verif.py records "
+                  "scheduler and spatial operations with pre/post state for transition-wise validation",
+                  "baseline_off_cmd": BASE_OFF, "source_commits": ["0a6f2e2"], "add_only": True},
         "engines": [{"name": "tlc", "path": "/verif/harness/tlc.py", "serves_properties": sorted(CHECKS),
                      "kind_free_text": "TLC 1.8.0 explicit-state model checker on /verif/spec/*.tla; batched trace validation (harness/judge.py)"}],
         "checks": checks,
